@@ -21,6 +21,7 @@ func main() {
 	}{
 		{"arith", runArith, "ArithTables.lean"},
 		{"wire", runWire, "WireSchema.lean"},
+		{"syntax", runSyntax, "SyntaxFacts.lean"},
 	}
 	for _, s := range steps {
 		p := filepath.Join(out, s.file)
